@@ -25,7 +25,7 @@ EXTENDS Integers, Sequences, FiniteSets, TLC
 \* Rule groups that are switched off (normally {}).  When a trace is rejected the
 \* orchestrator re-validates it with one group off at a time to learn which
 \* family of rules - hence which property - the implementation broke.
-\*   md status pay ids wire ctx fault serve pend reg robust
+\*   md status pay ids wire ctx fault serve pend reg robust letgo route
 CONSTANT Off
 \* IF (not a disjunction) and "= TRUE" make TLC evaluate the guard as a plain predicate:
 \* a disjunction in an action is split into one successor per true disjunct.
@@ -122,7 +122,7 @@ MethOfKind(k) == CASE k = "unary" -> "/verif.Svc/Unary"
 
 -----------------------------------------------------------------------------
 Init ==
-  /\ cfg = [srv |-> "srv", rawcli |-> FALSE, rawsrv |-> FALSE, ncli |-> 1, cli |-> "cli1"]
+  /\ cfg = [srv |-> "srv", rawcli |-> FALSE, rawsrv |-> FALSE, ncli |-> 1, cli |-> "cli1", relay |-> ""]
   /\ phase = "run" /\ now = 0
   /\ calls = <<>> /\ byId = <<>> /\ hi = 0 /\ gaps = {}
   /\ cw = <<>> /\ nSR = 0 /\ sw = <<>> /\ nCR = 0
@@ -246,11 +246,17 @@ SrvItem(env) == IF env.t = 1 THEN [k |-> "close", pay |-> "", code |-> IF env.s 
 
 \* an envelope without the routing fields a relay (proxy) maintains
 NoRoute(e) == [e EXCEPT !.rec = 0, !.nxt = 0, !.rs = "", !.ns = "", !.rret = ""]
+\* ... which it maintains like this (C16): on a direct connection nothing changes; an envelope written without a route
+\* record crosses the one relay of the topology with exactly that relay's name recorded - once, for every envelope of a
+\* stream alike - and with nothing left to follow
+RouteKept(w, r) == IF cfg.relay = "" THEN r.rs = w.rs /\ r.ns = w.ns /\ r.rec = w.rec /\ r.nxt = w.nxt
+                   ELSE (w.rs = "" /\ w.nxt <= 1) => (r.rs = cfg.relay /\ r.rec = 1 /\ r.nxt = 0)
 
 ServerRead(env, n) ==
   /\ n = nSR + 1 /\ n <= Len(cw)
   \* ordered, exactly once, unchanged - except the routing record a relay (proxy) maintains
   /\ NoRoute(env) = NoRoute(cw[n])
+  /\ G("route", RouteKept(cw[n], env))
   /\ nSR' = n
   /\ LET id == env.id
          s == Sin(id)
@@ -503,6 +509,7 @@ ServerWriteRaw(env) ==
 ClientRead(env, n) ==
   /\ n = nCR + 1 /\ n <= Len(sw)
   /\ NoRoute(env) = NoRoute(sw[n])
+  /\ G("route", RouteKept(sw[n], env))
   /\ nCR' = n
   /\ LET id == env.id
          x == Cin(id)
